@@ -63,12 +63,12 @@ func genRedial(r *core.Rand) *RedialCfg {
 		for i, k := 0, r.Intn(max+1); i < k; i++ {
 			n++
 			t := typeDist[r.Intn(len(typeDist))]
-			out = append(out, PlugSpec{fmt.Sprintf("c%02d%s", n, t[:1]), t})
+			out = append(out, PlugSpec{Name: fmt.Sprintf("c%02d%s", n, t[:1]), Type: t})
 		}
 		return out
 	}
 	n++
-	rc.Client.Ops = []Op{{Kind: "new", Plugs: append([]PlugSpec{{fmt.Sprintf("c%02da", n), "all"}}, plugs(1)...)}}
+	rc.Client.Ops = []Op{{Kind: "new", Plugs: append([]PlugSpec{{Name: fmt.Sprintf("c%02da", n), Type: "all"}}, plugs(1)...)}}
 	for i, na := 0, r.Intn(3); i < na; i++ {
 		k := "right"
 		if r.Intn(2) == 0 {
